@@ -2017,3 +2017,46 @@ func c11r12(p *Program, r *Report) {
 		r.Unresolved("updateReplicas: no copy of the old replica maps found")
 	}
 }
+
+// c05r13: the decoders assert the concrete type from TypeInfo.Type() without a check (t.(CollectionType),
+// info.(TupleTypeInfo), info.(UDTTypeInfo)); the invariant that makes this safe for type descriptions from the
+// network is established in (*framer).readTypeInfo: a value of the plain NativeType is returned only where its typ is
+// known to be none of the composite ids.
+func c05r13(p *Program, r *Report) {
+	fi := r.NeedFunc("(*framer).readTypeInfo")
+	if fi == nil {
+		return
+	}
+	composites := []string{"TypeTuple", "TypeUDT", "TypeMap", "TypeList", "TypeSet"}
+	n := 0
+	for _, u := range p.unitsOf(fi) {
+		info := u.Pkg.TypesInfo
+		sig, _ := u.Obj.Type().(*types.Signature)
+		if sig == nil || sig.Results().Len() != 1 || typeNameOf(sig.Results().At(0).Type()) != "TypeInfo" {
+			continue
+		}
+		g := p.GraphOf(u)
+		facts := g.GuardFacts()
+		for _, e := range g.Exits() {
+			rs, ok := e.Node.(*ast.ReturnStmt)
+			if !ok || len(rs.Results) != 1 || typeNameOf(info.TypeOf(rs.Results[0])) != "NativeType" {
+				continue
+			}
+			n++
+			f, _ := facts.Before(rs)
+			var open []string
+			for _, c := range composites {
+				sel := &ast.SelectorExpr{X: rs.Results[0], Sel: ast.NewIdent("typ")}
+				v, known := f.Known(&ast.BinaryExpr{X: sel, Op: token.EQL, Y: ast.NewIdent(c)})
+				if !known || v {
+					open = append(open, c)
+				}
+			}
+			r.Check(len(open) == 0, rs, u.Name+" returns a plain NativeType only for a non-composite id", "typ known to differ from "+strings.Join(composites, ", "),
+				fmt.Sprintf("a NativeType whose typ may be %s is returned as the column's TypeInfo: goType / unmarshalTuple / unmarshalUDT assert CollectionType, TupleTypeInfo or UDTTypeInfo from Type() without a check and panic in the caller's goroutine (a server names such a type through a custom class name)", strings.Join(open, "/")))
+		}
+	}
+	if n == 0 {
+		r.Unresolved("readTypeInfo never returns a NativeType")
+	}
+}
